@@ -64,6 +64,38 @@ class Ctx:
         self._verus[key] = r
         return r
 
+    def mustfail(self, crate):
+        key = ('mustfail', crate)
+        if key in self._gen:
+            return self._gen[key]
+        sub = os.path.join(self.work, 'mustfail_' + crate)
+        os.makedirs(sub, exist_ok=True)
+        deps = None
+        if crate == 'locale':
+            lr = self.verus_result('langid', ())
+            ek = ('langid', ())
+            if ek not in self._export:
+                self._export[ek] = verus.export_crate('langid', os.path.dirname(lr['path']), ())
+            ok, rlib, vir, er = self._export[ek]
+            deps = {'unic_langid_impl': (rlib, vir, lr['text_sha256'])} if ok else None
+        rec = {'name': 'mustfail:%s' % crate, 'engine': 'scan', 'backend': 'verus (must-fail variants)'}
+        if crate == 'locale' and deps is None:
+            rec.update({'status': 'undecided', 'why': 'langid crate could not be exported'})
+        else:
+            r = verus.run_mustfail(crate, sub, self.repo(), (), deps=deps)
+            mf = r.get('mustfail', {})
+            rec['checks'] = len(mf.get('names', []))
+            rec['time_s'] = (r.get('smt_ms') or 0) / 1000.0
+            rec['cached'] = r.get('cached', False)
+            if r.get('compile_failed') or r.get('assemble_errors') or set(mf.get('seen', [])) != set(mf.get('names', [])):
+                rec.update({'status': 'undecided', 'why': 'must-fail variants could not be checked (crate did not assemble / compile)'})
+            elif mf.get('accepted'):
+                rec.update({'status': 'undecided', 'why': 'VACUITY: must-fail variant(s) verified: %s (contradictory assumption?)' % ', '.join(mf['accepted'])})
+            else:
+                rec['status'] = 'proved'
+        self._gen[key] = rec
+        return rec
+
     def gen_text(self, which):
         if which not in self._gen:
             from . import gen
@@ -144,6 +176,9 @@ def collect(prop, ctx):
                     rec['failed'] = [{'what': d['head'][7:], 'clause': d['clause'], 'line': d['line']} for d in diags if d['kind'] == 'verify']
                     rec['detail'] = '\n\n'.join(d['text'] for d in diags)[:6000]
             obs.append(rec)
+    # ---- vacuity guard: must-fail variants of every Verus crate the property uses (not counted as obligations)
+    for crate in sorted(set(v['crate'] for v in spec.get('verus', []) if v['crate'] in ('langid', 'locale'))):
+        obs.append(ctx.mustfail(crate))
     # ---- syntactic scans (feature-gated code sites)
     for sc in spec.get('scan', []):
         from . import scan
@@ -366,7 +401,7 @@ def write_evidence(prop, tier, seed, spec, obs, proved, bounded, deferred, faile
             'bounded_obligations': [{'name': o['name'], 'bound': o['bounded'], 'status': o['status']} for o in bounded],
             'bounded_count_not_in_discharged': len(bounded),
             'deferred': [{'name': o['name'], 'why': o.get('why')} for o in deferred],
-            'syntactic_scans_not_counted': [{'name': o['name'], 'status': o['status'], 'sites': o.get('checks')} for o in obs if o['engine'] == 'scan'],
+            'guards_not_counted': [{'name': o['name'], 'status': o['status'], 'items': o.get('checks'), 'what': o.get('backend')} for o in obs if o['engine'] == 'scan'],
             'bounded_standin_runs': getattr(ctx, 'standin', []),
             'failed': [{'name': o['name'], 'failed': o.get('failed'), 'known_finding': o.get('known_finding', False)} for o in failed],
             'undecided': [{'name': o['name'], 'why': o.get('why')} for o in undec],
